@@ -99,6 +99,17 @@ def catalogue(big=False):
                                     call("C", binds={"x": self_("x")})],
                                    {"o": ref("B", "y"), "p": ref("C", "y")})], "TOP", {"x": 2}))
 
+    # 7b. the consumer of the disabled call splits: its split, chunks and join all get the null
+    P.append(program("dis_true_split", [],
+                     [S_const("F", "bool f", {"f": True}), S_echo("A"),
+                      stage("SJ", "int[] xs, int tag", "int[] ys, int t", {"ys": collect("co"), "t": echo("tag")},
+                            split=True, chunks={"k": "len", "src": "xs"}, couts="int co", crules={"co": CI})],
+                     [pipeline("TOP", "int x", "int[] o, int t",
+                               [call("F"),
+                                call("A", binds={"x": self_("x")}, dis=ref("F", "f")),
+                                call("SJ", binds={"xs": lit([5, 6]), "tag": ref("A", "y")})],
+                               {"o": ref("SJ", "ys"), "t": ref("SJ", "t")})], "TOP", {"x": 2}))
+
     # 8. disabled sub-pipeline containing stages
     P.append(program("dis_pipe", [], [S_echo("A"), S_echo("B")],
                      [pipeline("SUB", "int x", "int y",
